@@ -58,7 +58,6 @@ OPS = ["sort", "remove", "split", "flip", "crop", "bin"]
 FN = {"sort": "sort_tilts_by_angle", "remove": "remove_tilts", "split": "split_stack_even_odd", "flip": "flip_along_axes",
       "crop": "crop", "bin": "bin"}
 MODE = {"float32": 2, "int16": 1}
-KEY_SINGLE = "single-index-file"      # mechanism: text index file with exactly one entry -> scalar instead of a 1-d array
 NV = 4
 
 
@@ -552,27 +551,11 @@ def _num(x, how):
     return {"int": int(x), "npint": np.int64(x), "str": str(x)}[how]
 
 
-def _call(ctx, label, key, fn, *a, **k):
-    """like ctx.call, with a mechanism key for one classified failure"""
-    try:
-        r = fn(*a, **k)
-    except Exception as e:
-        import traceback
-        tb = traceback.format_exc().strip().splitlines()
-        ctx.check("completes:" + label, False, {"exception": type(e).__name__ + ": " + str(e)[:300], "where": tb[-6:],
-                                               "args": {q: (v if isinstance(v, (str, int, bool, type(None))) else type(v).__name__) for q, v in k.items()}},
-                  key=key if (key and isinstance(e, (TypeError, IndexError))) else None)
-        return False, None
-    ctx.check("completes:" + label, True)
-    return True, r
-
-
-def _run_variant(ctx, case, op, k, v, made):
+def _run_variant(ctx, case, op, k, v):
     ts = ctx.ts
     stack = _stack_input(ctx, case, v)
     out = _path(ctx, case, "%s%d_out%s" % (op, k, case["fmt"]["out_ext"])) if v["out_file"] else None
     kw = dict(input_order=v["in_order"], output_order=v["out_order"])
-    key = None
     if op == "sort":
         args = (stack, _angles_input(ctx, case, v, k))
         kw["output_file"] = out
@@ -580,8 +563,6 @@ def _run_variant(ctx, case, op, k, v, made):
     elif op == "remove":
         args = (stack, _indices_input(ctx, case, v, k))
         kw.update(numbered_from_1=v["from1"], output_file=out)
-        if v["idx"] == "txt" and len(case["idx0"]) == 1:
-            key = KEY_SINGLE
         _count(ctx, "indices_as:%s/%s" % (v["idx"], "1-based" if v["from1"] else "0-based"))
     elif op == "split":
         args = (stack,)
@@ -601,7 +582,7 @@ def _run_variant(ctx, case, op, k, v, made):
         args = (stack, _num(case["bin"], v["num"]))
         kw["output_file"] = out
     _count(ctx, "config:in=%s%s,out=%s,file=%d" % (v["in"], "/" + v["in_order"], v["out_order"], int(bool(out))))
-    ok, res = _call(ctx, FN[op], key, getattr(ts, FN[op]), *args, **kw)
+    ok, res = ctx.call(FN[op], getattr(ts, FN[op]), *args, **kw)
     if not ok:
         return None
     parts = res if op == "split" else (res,)
@@ -634,11 +615,10 @@ def run_case(ctx, case):
     ts = ctx.ts
     rng = ctx.rng(case["i"], 1)
     nyx = case["nyx"]
-    made = []
     for op in OPS:
         outs = []
         for k, v in enumerate(case["variants"][op]):
-            r = _run_variant(ctx, case, op, k, v, made)
+            r = _run_variant(ctx, case, op, k, v)
             if r is not None:
                 outs.append((k, v, r))
         for k, v, r in outs[1:]:
